@@ -973,7 +973,18 @@ Qed.
 Definition at_pos (m : fmode) (c : list Z) (off : Z) : Z := match m with MAppend => len c | _ => off end.
 
 Lemma at_count0 cfg wr g q size a : a_count a = 0 -> g_at cfg wr g q size a = (g, mkR (SUCCESS cfg) 0 []).
-Proof. intros H. unfold g_at. rewrite H. reflexivity. Qed.
+Proof. intros H. unfold g_at, g_at_with. rewrite H. reflexivity. Qed.
+
+Lemma at_tail_00 c : at_tail c 0 0 = SUCCESS c.
+Proof. unfold at_tail. rewrite errclass_0, Z.eqb_refl. reflexivity. Qed.
+
+(* the repaired tail: SUCCESS needs both the transfer and the restoring fseek to be free of errors *)
+Lemma at_tail_success c e3 e4 : at_tail c e3 e4 = SUCCESS c <-> e3 = 0 /\ e4 = 0.
+Proof.
+  unfold at_tail. destruct (errclass c e3 =? SUCCESS c) eqn:E.
+  - apply Z.eqb_eq in E. rewrite errclass_success_iff in E. rewrite errclass_success_iff. tauto.
+  - apply Z.eqb_neq in E. rewrite errclass_success_iff in E. rewrite errclass_success_iff. tauto.
+Qed.
 
 Lemma neqb_false x : x <> 0 -> (x =? 0) = false.
 Proof. intros H. apply Z.eqb_neq. exact H. Qed.
@@ -985,7 +996,7 @@ Lemma at_write_nf cfg g c fl op lg m p q size a :
     /\ wst (g_w g') (put c (at_pos m c (a_off a)) (a_data a)) fl op lg
     /\ g_s0 g' = Some (mkS m p) /\ g_ctx g' = g_ctx g.
 Proof.
-  intros H Hs Hm Hp Ho Hc Hl. unfold g_at. rewrite (neqb_false (a_count a)) by lia. rewrite Hs.
+  intros H Hs Hm Hp Ho Hc Hl. unfold g_at, g_at_with. rewrite (neqb_false (a_count a)) by lia. rewrite Hs.
   destruct (nf_ftell _ _ _ _ _ q (mkS m p) H) as (w1 & E1 & H1). rewrite E1. cbn [st_pos].
   destruct (p =? -1) eqn:Ep; [apply Z.eqb_eq in Ep; lia|].
   destruct (nf_fseek _ _ _ _ _ q (mkS m p) _ H1 Ho) as (w2 & E2 & H2). rewrite E2. cbn [st_mode].
@@ -994,7 +1005,7 @@ Proof.
   destruct (nf_fwrite _ _ _ _ _ q _ size _ _ H2 Hm' Hl) as (w3 & E3 & H3). rewrite E3.
   change (0 =? 0) with true. cbn [negb andb].
   destruct (nf_fseek _ _ _ _ _ q (mkS (st_mode (mkS m (a_off a))) (wpos (mkS m (a_off a)) c + len (a_data a))) p H3 Hp) as (w4 & E4 & H4).
-  rewrite E4. rewrite errclass_0. cbn [st_mode].
+  rewrite E4. rewrite at_tail_00. cbn [st_mode].
   eexists. split; [reflexivity|]. cbn [g_w g_s0 g_ctx].
   split; [|auto]. unfold wpos in H4. cbn [st_mode st_pos] in H4. unfold at_pos. destruct m; auto; congruence.
 Qed.
@@ -1006,7 +1017,7 @@ Lemma at_read_nf cfg g c fl op lg p q size a :
                         (firstn (Z.to_nat (size * whole c (a_off a) size (a_count a))) (avail c (a_off a) size (a_count a))))
     /\ wst (g_w g') c fl op lg /\ g_s0 g' = Some (mkS MRead p) /\ g_ctx g' = g_ctx g.
 Proof.
-  intros H Hs Hp Ho Hc. unfold g_at. rewrite (neqb_false (a_count a)) by lia. rewrite Hs.
+  intros H Hs Hp Ho Hc. unfold g_at, g_at_with. rewrite (neqb_false (a_count a)) by lia. rewrite Hs.
   destruct (nf_ftell _ _ _ _ _ q (mkS MRead p) H) as (w1 & E1 & H1). rewrite E1. cbn [st_pos].
   destruct (p =? -1) eqn:Ep; [apply Z.eqb_eq in Ep; lia|].
   destruct (nf_fseek _ _ _ _ _ q (mkS MRead p) _ H1 Ho) as (w2 & E2 & H2). rewrite E2. cbn [st_mode].
@@ -1014,7 +1025,7 @@ Proof.
   destruct (nf_fread _ _ _ _ _ q (a_off a) size (a_count a) H2) as (w3 & E3 & H3). rewrite E3.
   change (0 =? 0) with true. cbn [negb andb].
   destruct (nf_fseek _ _ _ _ _ q (mkS MRead (a_off a + len (avail c (a_off a) size (a_count a)))) p H3 Hp) as (w4 & E4 & H4).
-  rewrite E4. rewrite errclass_0. cbn [st_mode].
+  rewrite E4. rewrite at_tail_00. cbn [st_mode].
   eexists. split; [reflexivity|]. cbn [g_w g_s0 g_ctx]. auto.
 Qed.
 
@@ -1071,62 +1082,178 @@ Proof. intros H. unfold ind. destruct (e =? 0) eqn:E; [apply Z.eqb_eq in E; left
 Lemma errclass_pos c e : 0 < e -> errclass c e <> SUCCESS c.
 Proof. intros H. apply errclass_fail. lia. Qed.
 
-(* F-C12f: the full statement `class = SUCCESS <-> no stdio call failed` is false for these two functions; what holds:
-   no failure gives SUCCESS, and SUCCESS after a failure happens only together with a positive (short) count *)
-Lemma at_success_char cfg wr g q size a g' r : plan_ok (w_plan (g_w g)) -> 0 <= a_count a -> 0 < size ->
+(* what the stdio calls of the model do to the file, the stream and the buffer - under any fault plan *)
+Lemma note_err_content w e : content (note_err w e) = content w.
+Proof. unfold note_err. destruct (e =? 0); reflexivity. Qed.
+
+Lemma ftell_content w q s w' r e : g_ftell w q s = (w', r, e) -> content w' = content w.
+Proof.
+  unfold g_ftell, take. cbn [w_node w_plan w_cnt w_fail w_open w_ledger].
+  destruct (w_plan w q FTELL (w_cnt w q FTELL)) as [[e0 sh]|]; intros E; inversion E; subst;
+    [rewrite note_err_content|]; reflexivity.
+Qed.
+
+Lemma fseek_eff w q s off w' s' r e : g_fseek w q s off = (w', s', r, e) ->
+  content w' = content w /\ ((r = 0 /\ s' = mkS (st_mode s) off /\ 0 <= off) \/ (r = -1 /\ s' = s)).
+Proof.
+  unfold g_fseek, take. cbn [w_node w_plan w_cnt w_fail w_open w_ledger].
+  destruct (w_plan w q FSEEK (w_cnt w q FSEEK)) as [[e0 sh]|].
+  - intros E; inversion E; subst. rewrite note_err_content. split; [reflexivity|right; auto].
+  - destruct (off <? 0) eqn:Eo; intros E; inversion E; subst.
+    + rewrite note_err_content. split; [reflexivity|right; auto].
+    + split; [reflexivity|left]. apply Z.ltb_ge in Eo. auto.
+Qed.
+
+(* fwrite reports r elements: exactly the first r elements of the data are in the file, at the stream's write position *)
+Lemma fwrite_eff w q s size count data w' s' r e : 0 <= count ->
+  g_fwrite w q s size count data = (w', s', r, e) ->
+  0 <= r <= count
+  /\ ((st_mode s = MRead /\ r = 0 /\ content w' = content w)
+      \/ (st_mode s <> MRead
+          /\ content w' = put (content w) (wpos s (content w)) (firstn (Z.to_nat (size * r)) data))).
+Proof.
+  intros Hc. unfold g_fwrite, take. cbn [w_node w_plan w_cnt w_fail w_open w_ledger].
+  destruct (st_mode s) eqn:Em.
+  - intros E; inversion E; subst. rewrite note_err_content. split; [lia|left; auto].
+  - destruct (w_plan w q FWRITE (w_cnt w q FWRITE)) as [[e0 sh]|]; intros E; inversion E; subst;
+      rewrite note_err_content; (split; [lia|right; split; [congruence|]]); unfold wpos; rewrite Em; reflexivity.
+  - destruct (w_plan w q FWRITE (w_cnt w q FWRITE)) as [[e0 sh]|]; intros E; inversion E; subst;
+      rewrite note_err_content; (split; [lia|right; split; [congruence|]]); unfold wpos; rewrite Em; reflexivity.
+Qed.
+
+Lemma firstn_firstn_le {A} (l : list A) n k : (n <= length (firstn k l))%nat -> firstn n (firstn k l) = firstn n l.
+Proof. intros H. rewrite firstn_firstn. rewrite firstn_length in H. f_equal. lia. Qed.
+
+(* fread reports r elements: the buffer holds exactly the r whole elements found at the stream position; file unchanged *)
+Lemma fread_eff w q s size count w' s' r e buf : 0 <= count -> 0 < size ->
+  g_fread w q s size count = (w', s', r, e, buf) ->
+  0 <= r <= count /\ content w' = content w
+  /\ buf = firstn (Z.to_nat (size * r)) (skipn (Z.to_nat (st_pos s)) (content w)).
+Proof.
+  intros Hc Hs.
+  assert (K : forall m, 0 <= m <= count ->
+            let av := firstn (Z.to_nat (size * m)) (skipn (Z.to_nat (st_pos s)) (content w)) in
+            0 <= len av / size <= count
+            /\ firstn (Z.to_nat (size * (len av / size))) av
+               = firstn (Z.to_nat (size * (len av / size))) (skipn (Z.to_nat (st_pos s)) (content w))).
+  { intros m Hm av.
+    assert (H0 : 0 <= size * m) by nia.
+    assert (L : len av <= size * m).
+    { unfold av, len. rewrite firstn_length. lia. }
+    assert (L0 : 0 <= len av) by apply len_nonneg.
+    assert (D : size * (len av / size) <= len av) by (apply Z.mul_div_le; lia).
+    split.
+    - split; [apply Z.div_pos; lia|]. apply Z.div_le_upper_bound; [lia|nia].
+    - set (X := len av / size) in *. unfold av at 1. apply firstn_firstn_le. fold av. unfold len in D. lia. }
+  unfold g_fread, take. cbn [w_node w_plan w_cnt w_fail w_open w_ledger].
+  destruct (st_mode s) eqn:Em.
+  - destruct (w_plan w q FREAD (w_cnt w q FREAD)) as [[e0 sh]|]; intros E; inversion E; subst; clear E;
+      rewrite note_err_content.
+    + destruct (K (Z.max 0 (Z.min sh count)) ltac:(lia)) as [K1 K2]. split; [exact K1|split; [reflexivity|exact K2]].
+    + destruct (K count ltac:(lia)) as [K1 K2]. split; [exact K1|split; [reflexivity|exact K2]].
+  - intros E; inversion E; subst. rewrite note_err_content, Z.mul_0_r. split; [lia|split; reflexivity].
+  - intros E; inversion E; subst. rewrite note_err_content, Z.mul_0_r. split; [lia|split; reflexivity].
+Qed.
+
+(* what sc_io_read_at / sc_io_write_at report as ocount is what was transferred:
+   write: the first ocount elements of the data are in the file at the offset (at the end in mode "ab"), nothing else changed;
+   read : the file is unchanged and the buffer holds the ocount whole elements found at the offset *)
+Definition at_transferred (wr : bool) (g : gstate) (size : Z) (a : carg) (g' : gstate) (r : rres) : Prop :=
+  if wr then
+    r_buf r = []
+    /\ ((r_ocount r = 0 /\ content (g_w g') = content (g_w g))
+        \/ exists m p, g_s0 g = Some (mkS m p) /\ m <> MRead
+             /\ content (g_w g') = put (content (g_w g)) (at_pos m (content (g_w g)) (a_off a))
+                                       (firstn (Z.to_nat (size * r_ocount r)) (a_data a)))
+  else
+    content (g_w g') = content (g_w g)
+    /\ r_buf r = firstn (Z.to_nat (size * r_ocount r)) (skipn (Z.to_nat (a_off a)) (content (g_w g))).
+
+Lemma at_transferred_none wr g size a g' cls : content (g_w g') = content (g_w g) ->
+  at_transferred wr g size a g' (mkR cls 0 []).
+Proof.
+  intros H. unfold at_transferred. cbn [r_buf r_ocount]. rewrite Z.mul_0_r. destruct wr; [split; [reflexivity|left; auto]|auto].
+Qed.
+
+(* the full statement (false before repair 3510a9a, F-C12f): under every fault plan the class is SUCCESS iff no stdio call of
+   the operation (ftell, fseek, fread/fwrite, restoring fseek) ended with an error; ocount is what was transferred *)
+Lemma at_success_iff cfg wr g q size a g' r : plan_ok (w_plan (g_w g)) -> 0 <= a_count a -> 0 < size ->
   g_at cfg wr g q size a = (g', r) ->
-  (w_fail (g_w g') = w_fail (g_w g) -> r_cls r = SUCCESS cfg)
-  /\ (r_cls r = SUCCESS cfg -> w_fail (g_w g') = w_fail (g_w g) \/ 0 < r_ocount r)
+  (r_cls r = SUCCESS cfg <-> w_fail (g_w g') = w_fail (g_w g))
+  /\ 0 <= r_ocount r <= a_count a
+  /\ at_transferred wr g size a g' r
   /\ w_ledger (g_w g') = w_ledger (g_w g) /\ w_open (g_w g') = w_open (g_w g).
 Proof.
-  intros Hp Hc Hs. unfold g_at.
-  destruct (a_count a =? 0); [intros E; inversion E; subst; cbn; auto|].
-  destruct (g_s0 g) as [s|]; [|intros E; inversion E; subst; cbn; auto].
+  intros Hp Hc Hs. unfold g_at, g_at_with.
+  destruct (a_count a =? 0).
+  { intros E; inversion E; subst; cbn [r_cls r_ocount]. split; [tauto|]. split; [lia|]. split; [apply at_transferred_none; cbn [g_w]; reflexivity|auto]. }
+  destruct (g_s0 g) as [s|] eqn:Es0.
+  2:{ intros E; inversion E; subst; cbn [r_cls r_ocount]. split; [tauto|]. split; [lia|]. split; [apply at_transferred_none; cbn [g_w]; reflexivity|auto]. }
   destruct (g_ftell (g_w g) q s) as [[w1 pos] e1] eqn:E1.
   destruct (acct_ftell _ _ _ _ _ _ Hp E1) as ([P1 F1] & R1 & O1 & L1).
+  pose proof (ftell_content _ _ _ _ _ _ E1) as C1.
   assert (Hp1 : plan_ok (w_plan w1)) by (rewrite P1; exact Hp).
   destruct (pos =? -1) eqn:Bp.
   { intros E. inversion E; subst; clear E. cbn [g_w r_cls r_ocount].
+    split; [|split; [lia|split; [apply at_transferred_none; cbn [g_w]; exact C1|auto]]].
     apply Z.eqb_eq in Bp. destruct R1 as [[Hpos He]|[_ He]].
-    - subst e1. rewrite ind_0 in F1. rewrite errclass_0. repeat split; auto; lia.
-    - rewrite (ind_pos _ He) in F1. pose proof (errclass_pos cfg e1 He). repeat split; auto; intros; try lia; congruence. }
+    - subst e1. rewrite ind_0 in F1. rewrite errclass_0. split; intros; [lia|reflexivity].
+    - rewrite (ind_pos _ He) in F1. pose proof (errclass_pos cfg e1 He). split; intros; [congruence|lia]. }
   assert (He1 : e1 = 0).
   { destruct R1 as [[_ H]|[H _]]; [exact H|]. apply Z.eqb_neq in Bp. congruence. }
   subst e1. rewrite ind_0 in F1.
   destruct (g_fseek w1 q s (a_off a)) as [[[w2 s2] r2] e2] eqn:E2.
   destruct (acct_fseek _ _ _ _ _ _ _ _ Hp1 E2) as ([P2 F2] & R2 & O2 & L2).
+  destruct (fseek_eff _ _ _ _ _ _ _ _ E2) as [C2 S2].
   assert (Hp2 : plan_ok (w_plan w2)) by (rewrite P2; exact Hp1).
   destruct (r2 =? 0) eqn:B2; cbn [negb].
   2:{ intros E. inversion E; subst; clear E. cbn [g_w r_cls r_ocount].
+      split; [|split; [lia|split; [apply at_transferred_none; cbn [g_w]; congruence|split; congruence]]].
       pose proof (ret_errno_fail _ _ R2 B2) as He. rewrite (ind_pos _ He) in F2. pose proof (errclass_pos cfg e2 He).
-      repeat split; auto; intros; try lia; congruence. }
+      split; intros; [congruence|lia]. }
   rewrite (ret_errno_ok _ _ R2 B2), ind_0 in F2.
+  assert (S2' : s2 = mkS (st_mode s) (a_off a) /\ 0 <= a_off a).
+  { apply Z.eqb_eq in B2. destruct S2 as [[_ H]|[H _]]; [exact H|lia]. }
+  destruct S2' as [S2' Hoff]. clear S2. subst s2.
+  set (s2 := mkS (st_mode s) (a_off a)) in *.
   destruct (if wr then let '(w', s', oc, e) := g_fwrite w2 q s2 size (a_count a) (a_data a) in (w', s', oc, e, [])
             else g_fread w2 q s2 size (a_count a)) as [[[[w3 s3] oc] e3] buf] eqn:E3.
   assert (A3 : facct w2 w3 (ind e3) /\ 0 <= e3 /\ 0 <= oc /\ w_open w3 = w_open w2 /\ w_ledger w3 = w_ledger w2).
   { destruct wr.
     - destruct (g_fwrite w2 q s2 size (a_count a) (a_data a)) as [[[w' s'] oc'] e'] eqn:Ew. inversion E3; subst.
-      eapply acct_fwrite; eauto.
-    - eapply acct_fread; eauto. }
+      exact (acct_fwrite _ _ _ _ _ _ _ _ _ _ Hp2 Hc Ew).
+    - exact (acct_fread _ _ _ _ _ _ _ _ _ _ Hp2 Hs E3). }
   destruct A3 as ([P3 F3] & N3 & Noc & O3 & L3).
   assert (Hp3 : plan_ok (w_plan w3)) by (rewrite P3; exact Hp2).
+  (* the transfer: bounds of the count, and the count describes what is in the file / in the buffer *)
+  assert (T3 : oc <= a_count a /\ forall gx cls, content (g_w gx) = content w3 -> at_transferred wr g size a gx (mkR cls oc buf)).
+  { destruct wr.
+    - destruct (g_fwrite w2 q s2 size (a_count a) (a_data a)) as [[[w' s'] oc'] e'] eqn:Ew. inversion E3; subst; clear E3.
+      destruct (fwrite_eff _ _ _ _ _ _ _ _ _ _ Hc Ew) as [Hb Hw]. split; [lia|].
+      intros gx cls Hx. unfold at_transferred. cbn [r_buf r_ocount]. split; [reflexivity|].
+      rewrite Hx. destruct Hw as [(_ & Hr & Hcw)|(Hm & Hcw)].
+      + left. split; [exact Hr|congruence].
+      + right. destruct s as [m p]. exists m, p. cbn [st_mode] in Hm. split; [exact Es0|split; [exact Hm|]].
+        rewrite Hcw. rewrite C2, C1. unfold wpos, at_pos. cbn [st_mode st_pos]. reflexivity.
+    - destruct (fread_eff _ _ _ _ _ _ _ _ _ _ Hc Hs E3) as (Hb & Hcr & Hbuf). split; [lia|].
+      intros gx cls Hx. unfold at_transferred. cbn [r_buf r_ocount]. split; [congruence|].
+      rewrite Hbuf. cbn [st_pos]. rewrite C2, C1. reflexivity. }
+  destruct T3 as [Toc T3].
   destruct (negb (e3 =? 0) && (oc =? 0)) eqn:B3.
   { intros E. inversion E; subst; clear E. cbn [g_w r_cls r_ocount].
+    split; [|split; [lia|split; [apply T3; cbn [g_w]; reflexivity|split; congruence]]].
     apply andb_true_iff in B3. destruct B3 as [B3 _]. apply negb_true_iff, Z.eqb_neq in B3.
     assert (He : 0 < e3) by lia. rewrite (ind_pos _ He) in F3. pose proof (errclass_pos cfg e3 He).
-    repeat split; auto; intros; try lia; congruence. }
+    split; intros; [congruence|lia]. }
   destruct (g_fseek w3 q s3 pos) as [[[w4 s4] r4] e4] eqn:E4.
   destruct (acct_fseek _ _ _ _ _ _ _ _ Hp3 E4) as ([P4 F4] & R4 & O4 & L4).
+  destruct (fseek_eff _ _ _ _ _ _ _ _ E4) as [C4 _].
   intros E. inversion E; subst; clear E. cbn [g_w r_cls r_ocount].
-  apply andb_false_iff in B3.
+  split; [|split; [lia|split; [apply T3; cbn [g_w]; exact C4|split; congruence]]].
+  rewrite at_tail_success.
+  assert (N4 : 0 <= e4) by (destruct R4 as [[_ H]|[_ H]]; lia).
   destruct (ind_cases e3 N3) as [[He3 I3]|[He3 I3]]; rewrite I3 in F3;
-    (destruct R4 as [[Hr4 He4]|[Hr4 He4]]; [subst e4; rewrite ind_0 in F4; rewrite errclass_0 | rewrite (ind_pos _ He4) in F4; pose proof (errclass_pos cfg e4 He4)]).
-  - repeat split; auto; intros; try lia.
-  - repeat split; auto; intros; try lia; congruence.
-  - assert (0 < oc).
-    { destruct B3 as [B3|B3]; [apply negb_false_iff, Z.eqb_eq in B3; lia|apply Z.eqb_neq in B3; lia]. }
-    repeat split; auto; intros; try lia.
-  - repeat split; auto; intros; try lia; congruence.
+    (destruct (ind_cases e4 N4) as [[He4 I4]|[He4 I4]]; rewrite I4 in F4); split; intros; lia.
 Qed.
 
 (* ------------------------------------------------------------------ the configurations agree on consecutive blocks *)
@@ -1150,7 +1277,7 @@ Proof.
 Qed.
 
 (* ------------------------------------------------------------------ refutations (witnesses evaluated by the kernel) *)
-(* F-C12f *)
+(* F-C12f (repaired by 3510a9a): the OLD tail of sc_io_read_at / sc_io_write_at refutes the statement of at_success_iff *)
 Definition plan_partial : plan :=
   fun q f k => if (q =? 0) && (f =? FWRITE) && (k =? 0) then Some (e_ENOSPC, 1) else None.
 
@@ -1162,14 +1289,20 @@ Proof.
   apply Z.eqb_eq in E. split; [cbv; congruence|]. intros H1. congruence.
 Qed.
 
-Lemma at_success_iff_refuted :
-  exists g a g' r, plan_ok (w_plan (g_w g)) /\ 0 <= a_count a /\ g_at CfgA true g 0 1 a = (g', r)
-                   /\ r_cls r = SUCCESS CfgA /\ r_ocount r = 1 /\ a_count a = 4
-                   /\ w_fail (g_w g') = w_fail (g_w g) + 1.
+Definition g_partial : gstate := mkG (world0 (File []) plan_partial) (Some (mkS MWrite 0)) true.
+Definition a_partial : carg := mkA 0 4 [1; 2; 3; 4].
+
+Lemma at_old_tail_refuted :
+  plan_ok (w_plan (g_w g_partial)) /\ 0 <= a_count a_partial
+  /\ (exists g' r, g_at_with at_tail_old CfgA true g_partial 0 1 a_partial = (g', r)
+                   /\ r_cls r = SUCCESS CfgA /\ r_ocount r = 1 /\ a_count a_partial = 4
+                   /\ w_fail (g_w g') = w_fail (g_w g_partial) + 1)
+  /\ (exists g' r, g_at CfgA true g_partial 0 1 a_partial = (g', r)
+                   /\ r_cls r = errclass CfgA e_ENOSPC /\ r_cls r <> SUCCESS CfgA /\ r_ocount r = 1
+                   /\ w_fail (g_w g') = w_fail (g_w g_partial) + 1).
 Proof.
-  exists (mkG (world0 (File []) plan_partial) (Some (mkS MWrite 0)) true), (mkA 0 4 [1; 2; 3; 4]).
-  eexists. eexists. split; [exact plan_partial_ok|]. split; [cbv; congruence|].
-  split; [vm_compute; reflexivity|]. vm_compute. auto.
+  split; [exact plan_partial_ok|]. split; [cbv; congruence|].
+  split; eexists; eexists; (split; [vm_compute; reflexivity|]); vm_compute; repeat split; congruence.
 Qed.
 
 (* F-C12e: header by sc_io_write_at, then blocks behind it by sc_io_write_at_all *)
